@@ -182,7 +182,7 @@ def run(env):
     small = list(gen_types.enumerate_small())
     env.count("small_space", 0)
     stride = 3 if env.quick() else 1
-    g = gen_types.Gen(rng)
+    g = gen_types.Gen(rng, pattern_overlap=True)
     idx = 0
     for i, (label, build) in enumerate(small):
         if i % env.nshards != env.shard:
@@ -205,7 +205,7 @@ def run(env):
         if env.out_of_time():
             env.notes.append("time cap reached in random part")
             break
-        g = gen_types.Gen(rng, max_depth=rng.choice([2, 3, 4, 4]))
+        g = gen_types.Gen(rng, max_depth=rng.choice([2, 3, 4, 4]), pattern_overlap=True)
         t = g.type(0) if rng.random() < 0.5 else g.object(0)
         run_one(env, t, f"random#{env.shard}.{j}", nopts=2, ndata=40)
 
